@@ -54,6 +54,7 @@ SCRIPTS = {
     "rollback_running": ["sched", "RUNNING", "ROLLBACK", "sched", "RUNNING", "COMPLETED"],
     "rollback_fireable": ["sched", "ROLLBACK", "sched", "RUNNING", "COMPLETED"],
     "rollback_then_failed": ["sched", "RUNNING", "ROLLBACK", "FAILED"],
+    "run_forever": ["sched", "RUNNING"],  # keeps its resources until the end of the history
 }
 # an op ending with '!' is a duplicate that a different task of the engine may issue while the previous
 # notification of the same job is still in flight (original _run_job's finally vs. the recovery workflow)
@@ -93,6 +94,11 @@ CONFIGS = {
                                                                    "w1": {"cores": 2, "memory": 2, "storage": {"/": 8.0}}}}},
                              "targets": [("W", 1)], "req": {"cores": 1, "memory": 1, "out": 0, "tmp": 0}},
 }
+CONFIGS["hw2cores"] = {"deps": {"A": {"locs": {"a0": {"cores": 2, "memory": 8, "storage": {"/": 64.0}}}}},
+                      "targets": [("A", 1)], "req": {"cores": 1, "memory": 1, "out": 0, "tmp": 0}}
+CONFIGS["xy"] = {"deps": {"X": {"locs": {"x0": {"cores": 2, "memory": 8, "storage": {"/": 64.0}}}},
+                          "Y": {"locs": {"y0": {"cores": 1, "memory": 8, "storage": {"/": 64.0}}}}},
+                 "targets": [("X", 1), ("Y", 1)], "req": {"cores": 1, "memory": 1, "out": 0, "tmp": 0}}
 PROBE_CONFIGS = ("stacked_shared", "stacked_slots_shared")
 
 
@@ -122,6 +128,13 @@ class World:
         self.dcfg = {n: DeploymentConfig(name=n, type="fake", config={}, lazy=False) for n in self.connectors}
         self.binding = BindingConfig(targets=[Target(deployment=self.dcfg[d], locations=k, workdir="/work") for d, k in cfg["targets"]])
         self.req = FixedReq(**cfg["req"]) if cfg["req"] else None
+        # heterogeneous jobs: per-job core requirement and per-job target list (indices into cfg["targets"])
+        self.job_reqs = ([FixedReq(**dict(cfg["req"], cores=c)) for c in params["job_cores"]] if params.get("job_cores") else None)
+        self.job_bindings = None
+        if params.get("job_targets"):
+            self.job_bindings = [BindingConfig(targets=[Target(deployment=self.dcfg[cfg["targets"][i][0]], locations=cfg["targets"][i][1],
+                                                                 workdir="/work") for i in idx]) for idx in params["job_targets"]]
+            self.job_target_idx = params["job_targets"]
         # capacity table: location name -> dict(cores, memory, storage{mount:size}) or slots
         self.capacity = {}
         self.wrap_of = {}
@@ -131,6 +144,12 @@ class World:
                 self.capacity[ln] = lc
                 if inner:
                     self.wrap_of[ln] = inner[i % len(inner)]
+
+    def req_of(self, j):
+        return self.job_reqs[j] if self.job_reqs else self.req
+
+    def binding_of(self, j):
+        return self.job_bindings[j] if self.job_bindings else self.binding
 
     def chain(self, ln):
         out = [ln]
@@ -148,12 +167,13 @@ class World:
                 for level, ln in enumerate(self.chain(loc.name)):
                     u = use[ln]
                     u["jobs"] += 1
-                    if self.req is not None:
-                        u["cores"] += self.req.cores
-                        u["memory"] += self.req.memory
+                    req = self.req_of(int(name.rsplit(".", 1)[1])) if self.job_reqs else self.req
+                    if req is not None:
+                        u["cores"] += req.cores
+                        u["memory"] += req.memory
                         if level == 0:  # storages of wrapper levels are not bound to the inner location here
                             mounts = list(self.capacity[ln].get("storage", {"/": 0}))
-                            for path, size in (("/work/out", self.req.out), ("/work/tmp", self.req.tmp)):
+                            for path, size in (("/work/out", req.out), ("/work/tmp", req.tmp)):
                                 m = mount_of(path, mounts)
                                 u["storage"][m] = u["storage"].get(m, 0.0) + size
         return use
@@ -177,10 +197,22 @@ class World:
                     bad.append((ln, f"{u['jobs']} jobs > {slots} slots"))
         return bad
 
-    def fits_now(self):
-        """Can one more job of this world's requirement be hosted by some target right now?"""
+    def fits_now(self, j=None):
+        """Can one more job (job j's requirement and targets, if heterogeneous) be hosted by some target right now?"""
         use = self.usage()
-        for dep, k in self.cfg["targets"]:
+        saved = self.req
+        if j is not None and self.job_reqs:
+            self.req = self.job_reqs[j]
+        try:
+            targets = self.cfg["targets"]
+            if j is not None and self.job_bindings:
+                targets = [self.cfg["targets"][i] for i in self.job_target_idx[j]]
+            return self._fits(use, targets)
+        finally:
+            self.req = saved
+
+    def _fits(self, use, targets):
+        for dep, k in targets:
             ok_locs = 0
             for ln in self.cfg["deps"][dep]["locs"]:
                 good = True
@@ -242,7 +274,7 @@ async def _main(loop, params, res):
     async def do_op(j, op):
         try:
             if op == "sched":
-                await sched.schedule(job_obj(j), world.binding, world.req)
+                await sched.schedule(job_obj(j), world.binding_of(j), world.req_of(j))
             else:
                 await sched.notify_status(f"/s/0.{j}", Status[op.rstrip("!")])
         except Exception as e:  # noqa
@@ -263,6 +295,12 @@ async def _main(loop, params, res):
         if not menu:
             # nothing enabled: either finished or every remaining job is blocked in schedule()
             break
+        forced = params.get("prefix_ops") or []
+        if len(made) < len(forced):
+            fj = forced[len(made)][0]
+            if fj not in menu:
+                break  # the forced history is not executable here (a job it needs is blocked): stop driving
+            menu = [fj]
         c = loop.ctl.choose(len(menu), ("op", len(menu)), free=True)
         j = menu[c]
         op = scripts[j][pos[j]]
@@ -295,7 +333,8 @@ async def _main(loop, params, res):
     res["problems"] = problems
     res["blocked"] = [j for j in range(njobs) if last_task[j] is not None and not last_task[j].done()]
     res["unfinished"] = [j for j in range(njobs) if pos[j] < len(scripts[j])]
-    res["fits_now"] = world.fits_now()
+    waiting = sorted(set(res["blocked"]) | {j for j in res["unfinished"] if scripts[j][pos[j] - 1] == "sched" or pos[j] == 0})
+    res["fits_now"] = (any(world.fits_now(j) for j in waiting) if (world.job_reqs or world.job_bindings) else world.fits_now())
     res["active"] = [(n, a.status.name) for n, a in sched.job_allocations.items() if a.status in ACTIVE]
     res["hardware_locations"] = {k: (v.cores, v.memory, {m: s.size for m, s in v.storage.items()})
                                  for k, v in sched.hardware_locations.items()}
@@ -314,7 +353,8 @@ def run(params, prefix):
 
 
 def key_base(params):
-    return f"config={params['config']}|scripts={'+'.join(params['scripts'])}"  # same key in full and idle-only mode
+    extra = f"|cores={params['job_cores']}" if params.get("job_cores") else ""
+    return f"config={params['config']}|scripts={'+'.join(params['scripts'])}{extra}"  # same key in full and idle-only mode
 
 
 def cases(tier, retry_delay=0):
@@ -325,7 +365,7 @@ def cases(tier, retry_delay=0):
     pairs = [("ok", "ok"), ("dup_done", "ok"), ("recover", "ok"), ("fail_dup", "ok"), ("recover", "recover_fireable"),
              ("cancel", "dup_running"), ("fail_fireable", "ok"), ("recover", "dup_done"),
              ("rollback_running", "ok"), ("rollback_fireable", "ok"), ("rollback_then_failed", "ok")]
-    cfgs = [c for c in CONFIGS if c not in PROBE_CONFIGS]
+    cfgs = [c for c in CONFIGS if c not in PROBE_CONFIGS and c not in ("hw2cores", "xy")]
     for c in PROBE_CONFIGS:
         out.append({"config": c, "scripts": ["ok", "ok"], "bound": 0, "retry_delay": retry_delay})
     for c in cfgs:
@@ -344,6 +384,16 @@ def cases(tier, retry_delay=0):
             out.append({"config": c, "scripts": list(t), "bound": 0, "retry_delay": retry_delay})
     for c in ("hw1", "hwdisk"):
         out.append({"config": c, "scripts": ["ok", "dup_done"], "usage": 2 ** 20, "bound": 1, "retry_delay": retry_delay})
+    # heterogeneous requests: a small request queued behind a large one / a multi-target request ahead of a single-target one
+    pre = [[0, "sched"], [0, "RUNNING"], [1, "sched"], [1, "RUNNING"], [2, "sched"], [3, "sched"]]
+    out.append({"config": "hw2cores", "scripts": ["ok", "run_forever", "ok", "ok"], "job_cores": [1, 1, 2, 1], "prefix_ops": pre,
+                "bound": 1, "retry_delay": retry_delay})
+    out.append({"config": "hw2cores", "scripts": ["ok", "ok", "ok", "ok"], "job_cores": [1, 1, 2, 1], "prefix_ops": pre,
+                "bound": 0 if quick else 1, "retry_delay": retry_delay})
+    out.append({"config": "xy", "scripts": ["ok", "run_forever", "ok", "ok"], "job_cores": [2, 1, 1, 1],
+                "job_targets": [[0], [1], [0, 1], [0]], "prefix_ops": pre, "bound": 1, "retry_delay": retry_delay})
+    out.append({"config": "xy", "scripts": ["ok", "ok", "ok", "ok"], "job_cores": [2, 1, 1, 1],
+                "job_targets": [[0], [1], [0, 1], [0]], "prefix_ops": pre, "bound": 0 if quick else 1, "retry_delay": retry_delay})
     # deeper bound in the idle-only sub-space (I/O completes only when no callback is ready)
     deep = []
     for c in out:
